@@ -20,8 +20,9 @@ from concurrent.futures import ThreadPoolExecutor
 sys.path.insert(0, os.path.dirname(os.path.dirname(os.path.abspath(__file__))))
 import common as C  # noqa: E402
 
-GEN = ['Effects']
-PROPS = ['FinVerif.Props.C18a', 'FinVerif.Props.C18b', 'FinVerif.Props.C18c', 'FinVerif.Props.C18d']
+GEN = ['Effects', 'VecShape']
+PROPS = ['FinVerif.Props.C18a', 'FinVerif.Props.C18b', 'FinVerif.Props.C18c', 'FinVerif.Props.C18d', 'FinVerif.Props.C18e',
+         'FinVerif.Props.C18f']
 DRIVERS = ['FinVerif.Driver.C18']
 HIST = os.path.join(os.path.dirname(os.path.dirname(os.path.abspath(__file__))), 'c18_hist.py')
 NPROC = int(os.environ.get('VERIF_JOBS', '0')) or min(12, os.cpu_count() or 4)
@@ -1092,6 +1093,143 @@ def date_list_checks(ctx, rng):
     ctx.count('vector vs scalar: curve zero_rate / cc_rate / fwd / fwd_rate / swap_rate / survival_prob on date lists', n)
 
 
+def curve_vector_checks(ctx, rng):
+    """growth round 7: every curve class x interpolation type, every list-taking entry point: the call on a list of
+    dates (1 element, several, WITH the value date and the day after among them) against the scalar calls, BIT FOR BIT
+    (the same compiled kernel / NumPy ufunc evaluates both, so no tolerance is needed and none is used).  This is the
+    executable reading of Props/C18e and the validation of what Gen/VecShape trusts (element-wise NumPy / SciPy / Numba)."""
+    import numpy as np
+    from financepy.utils.date import Date
+    from financepy.utils.frequency import FrequencyTypes
+    from financepy.utils.day_count import DayCountTypes
+    from financepy.market.curves.discount_curve import DiscountCurve
+    from financepy.market.curves.discount_curve_flat import DiscountCurveFlat
+    from financepy.market.curves.discount_curve_zeros import DiscountCurveZeros
+    from financepy.market.curves.discount_curve_pwf import DiscountCurvePWF
+    from financepy.market.curves.discount_curve_pwl import DiscountCurvePWL
+    from financepy.market.curves.discount_curve_ns import DiscountCurveNS
+    from financepy.market.curves.discount_curve_nss import DiscountCurveNSS
+    from financepy.market.curves.discount_curve_poly import DiscountCurvePoly
+    from financepy.market.curves.interpolator import InterpTypes, Interpolator, interpolate
+    from financepy.utils.helpers import times_from_dates
+
+    def fm(x):
+        return f'{x.d}-{x.m}-{x.y}'
+
+    def bits(f):
+        try:
+            return [float(x).hex() for x in np.asarray(f(), dtype=float).ravel()]
+        except Exception as e:  # noqa: BLE001
+            return 'E:' + type(e).__name__
+    n = nfind = 0
+    spline_log = (InterpTypes.PCHIP_LOG_DISCOUNT, InterpTypes.NATCUBIC_LOG_DISCOUNT)
+    freqs = [FrequencyTypes.CONTINUOUS, FrequencyTypes.SIMPLE, FrequencyTypes.ANNUAL, FrequencyTypes.SEMI_ANNUAL, FrequencyTypes.QUARTERLY]
+    dcs = [DayCountTypes.ACT_ACT_ISDA, DayCountTypes.ACT_365F, DayCountTypes.ACT_360, DayCountTypes.THIRTY_E_360]
+    for it in range(6 if ctx.quick() else 60):
+        vd = Date(rng.choice([28, 29, 30, 31, 15, 1]), rng.choice([1, 3, 5, 7, 8, 10, 12]), rng.randint(2015, 2030))
+        pill = vd.add_months(sorted(rng.sample(range(3, 200), 5)))
+        dfs = np.cumprod([rng.uniform(0.93, 0.999) for _ in range(5)])
+        zr = [rng.uniform(0.005, 0.06) for _ in range(5)]
+        fq, dc = rng.choice(freqs), rng.choice(dcs)
+        curves = []
+        for ity in InterpTypes:
+            curves.append((f'DiscountCurve[{ity.name}]', DiscountCurve(vd, pill, np.array(dfs), ity), ity))
+            curves.append((f'DiscountCurveZeros[{ity.name},{fq.name},{dc.name}]', DiscountCurveZeros(vd, pill, np.array(zr), fq, dc, ity), ity))
+        curves += [(f'DiscountCurveFlat[{fq.name},{dc.name}]', DiscountCurveFlat(vd, rng.uniform(-0.01, 0.08), fq, dc), None),
+                   (f'DiscountCurvePWF[{fq.name},{dc.name}]', DiscountCurvePWF(vd, pill, zr, fq, dc), None),
+                   (f'DiscountCurvePWL[{fq.name},{dc.name}]', DiscountCurvePWL(vd, pill, zr, fq, dc), None),
+                   (f'DiscountCurveNS[{fq.name},{dc.name}]', DiscountCurveNS(vd, 0.03, -0.01, 0.012, rng.uniform(0.5, 4), fq, dc), None),
+                   (f'DiscountCurveNSS[{fq.name},{dc.name}]', DiscountCurveNSS(vd, 0.03, -0.01, 0.012, 0.004, rng.uniform(0.5, 3), rng.uniform(3, 8), fq, dc), None),
+                   (f'DiscountCurvePoly[{fq.name},{dc.name}]', DiscountCurvePoly(vd, [0.02, 0.002, -0.00004], fq, dc), None)]
+        ds = [vd, vd.add_days(1)] + [vd.add_days(rng.randint(2, 6500)) for _ in range(rng.randint(1, 4))] + [rng.choice(pill)]
+        rng.shuffle(ds)
+        lists = [ds, [ds[0]], ds[:2]]
+        for name, c, ity in curves:
+            meths = [('df', lambda x, c=c: c.df(x)), ('zero_rate', lambda x, c=c: c.zero_rate(x, fq, dc)), ('cc_rate', lambda x, c=c: c.cc_rate(x)),
+                     ('fwd', lambda x, c=c: c.fwd(x)), ('fwd_rate', lambda x, c=c: c.fwd_rate(x, '3M')),
+                     ('swap_rate', lambda x, c=c: c.swap_rate(vd, x)), ('survival_prob', lambda x, c=c: c.survival_prob(x))]
+            for mname, f in meths:
+                for lst in lists:
+                    if mname == 'swap_rate':
+                        lst = [x for x in lst if x > vd] or [vd.add_days(400)]
+                    if mname == 'survival_prob' and len(lst) > 1 and not isinstance(c, DiscountCurve):
+                        continue
+                    vec = bits(lambda: f(list(lst)))
+                    sca = [bits(lambda: f(x)) for x in lst]
+                    n += len(lst)
+                    if isinstance(vec, str):
+                        if vec in sca:
+                            continue            # the first failing element fails alone with the same error
+                        sflat = None
+                        if vec == 'E:ValueError' and mname == 'swap_rate' and type(c).__name__ in ('DiscountCurvePWF', 'DiscountCurvePWL', 'DiscountCurvePoly') \
+                                and any(x == [(0.0).hex()] for x in sca) and any(isinstance(x, list) and x != [(0.0).hex()] for x in sca):
+                            ctx.violation(f'{name}.swap_rate(list) raises ValueError where every scalar call returns',
+                                          {'curve': name, 'value_dt': fm(vd), 'dates': [fm(x) for x in lst], 'scalar_calls': sca},
+                                          finding='C18/swap-rate-list-mixed-shapes', clause='vector')
+                            continue
+                    else:
+                        sflat = [s[0] if isinstance(s, list) and len(s) == 1 else s for s in sca]
+                    if sflat is not None and vec == sflat:
+                        continue
+                    # narrow classifier of the known finding: spline of log(df), the ONLY differing elements are the value date
+                    # (t = 0), where the scalar call returns exactly 1.0
+                    known = None
+                    if sflat is not None and ity in spline_log and len(vec) == len(sflat) and mname in ('df', 'survival_prob', 'zero_rate', 'cc_rate', 'fwd', 'fwd_rate'):
+                        diff = [i for i in range(len(lst)) if vec[i] != sflat[i]]
+                        at0 = [i for i in diff if lst[i] == vd or (mname == 'fwd_rate' and False)]
+                        if diff and diff == at0 and (mname not in ('df', 'survival_prob') or all(sflat[i] == (1.0).hex() for i in diff)):
+                            known = 'C18/interpolator-zero-time-shortcut'
+                            nfind += 1
+                    ctx.violation(f'{name}.{mname}(list of dates): an element differs bit-for-bit from the same quantity requested alone',
+                                  {'curve': name, 'value_dt': fm(vd), 'method': mname, 'dates': [fm(x) for x in lst],
+                                   'list_call': vec, 'scalar_calls': sca}, finding=known, clause='vector')
+        # the time-level entry points: interpolate / Interpolator.interpolate / df_t on ndarrays incl. 0.0, a pillar, beyond the last pillar
+        c0 = curves[0][1]
+        tt = np.array([0.0, 1.0 / 365.0] + [rng.uniform(0.0, 25.0) for _ in range(4)] + [float(c0._times[2]), float(c0._times[-1]), 30.0])
+        for name, c, ity in curves:
+            if ity is None:
+                continue
+            for fname, f in (('df_t', lambda x, c=c: c.df_t(x)), ('_interpolator.interpolate', lambda x, c=c: c._interpolator.interpolate(x)),
+                             ('interpolate', lambda x, c=c: interpolate(x, c._times, c._dfs, c._interp_type.value))):
+                if fname == 'interpolate' and ity.value not in (1, 2, 4):
+                    continue
+                for arr in (tt, tt[:1], tt[3:4]):
+                    vec = bits(lambda: f(arr))
+                    sca = [bits(lambda: f(float(x))) for x in arr]
+                    n += len(arr)
+                    sflat = [s[0] if isinstance(s, list) and len(s) == 1 else s for s in sca]
+                    if vec == sflat or (isinstance(vec, str) and vec in sca):
+                        continue
+                    known = None
+                    if not isinstance(vec, str) and (ity in spline_log or fname == '_interpolator.interpolate'):
+                        diff = [i for i in range(len(arr)) if vec[i] != sflat[i]]
+                        if diff and all(abs(arr[i]) < 1e-10 and sflat[i] == (1.0).hex() for i in diff):
+                            known = 'C18/interpolator-zero-time-shortcut'
+                            nfind += 1
+                    ctx.violation(f'{name}.{fname}(ndarray of times): an element differs bit-for-bit from the scalar call',
+                                  {'curve': name, 'times': [float(x) for x in arr], 'array_call': vec, 'scalar_calls': sca},
+                                  finding=known, clause='vector')
+        for dcx in [None] + dcs:
+            vec = bits(lambda: times_from_dates(list(ds), vd, dcx))
+            sca = [bits(lambda: times_from_dates(x, vd, dcx))[0] for x in ds]
+            n += len(ds)
+            if vec != sca:
+                ctx.violation('times_from_dates(list) differs from the scalar conversions', {'value_dt': fm(vd), 'day_count': str(dcx),
+                              'dates': [fm(x) for x in ds], 'list_call': vec, 'scalar_calls': sca}, clause='vector')
+    # the empty list: the generated model says IndexError (Props/C18e.times_from_dates_empty)
+    try:
+        times_from_dates([], Date(1, 1, 2020), None)
+        ctx.broke('correspondence: times_from_dates([]) returns, Gen/VecShape (times_from_dates_empty) says it raises')
+    except IndexError:
+        pass
+    except Exception as e:  # noqa: BLE001
+        ctx.broke(f'correspondence: times_from_dates([]) raises {type(e).__name__}, Gen/VecShape says IndexError')
+    ctx.count('vector vs scalar BIT-FOR-BIT: curve class x interpolation type x entry point (lists incl. value date; ndarrays of times incl. 0)',
+              n, n, sample={'known_finding_hits': nfind})
+    if nfind == 0:
+        print('NOTE C18: the value-date / spline-of-log-df discrepancy (C18/interpolator-zero-time-shortcut) did not reproduce')
+
+
 # --------------------------------------------------------------------------------------------- growth round: model ties
 def module_state_snapshot():
     """digest of every module-level value and every class-level container of the loaded financepy modules"""
@@ -1153,6 +1291,137 @@ def module_state_check(ctx, eff, before):
                  ('financepy/utils/date.py', 'g_date_type_format')):
         if want not in changed:
             ctx.broke(f'module-state observer is blind: {want[1]} was changed on purpose and not seen')
+
+
+def interclass_cases():
+    """(label, object, method name, positional arguments, {parameter name: argument object}) — representative valuation calls that
+    receive curves / models / other instruments"""
+    from financepy.utils.date import Date
+    from financepy.utils.frequency import FrequencyTypes
+    from financepy.utils.day_count import DayCountTypes
+    from financepy.utils.global_types import SwapTypes, OptionTypes, FinCapFloorTypes
+    from financepy.market.curves.discount_curve_flat import DiscountCurveFlat
+    from financepy.market.curves.discount_curve import DiscountCurve
+    from financepy.products.rates.ibor_swap import IborSwap
+    from financepy.products.rates.ibor_cap_floor import IborCapFloor
+    from financepy.products.rates.ibor_deposit import IborDeposit
+    from financepy.products.rates.ibor_single_curve import IborSingleCurve
+    from financepy.products.bonds.bond import Bond
+    from financepy.products.equity.equity_vanilla_option import EquityVanillaOption
+    from financepy.products.equity.equity_digital_option import EquityDigitalOption, FinDigitalOptionTypes
+    from financepy.products.fx.fx_vanilla_option import FXVanillaOption
+    from financepy.products.credit.cds import CDS
+    from financepy.products.credit.cds_curve import CDSCurve
+    from financepy.models.black_scholes import BlackScholes
+    from financepy.models.black import Black
+    vd = Date(15, 1, 2026)
+    flat = lambda r: DiscountCurveFlat(vd, r)                                                   # noqa: E731
+    dts = [vd.add_years(i) for i in range(0, 8)]
+    import numpy as np
+    pillars = lambda: DiscountCurve(vd, dts, np.array([0.97 ** i for i in range(0, 8)]))                  # noqa: E731
+    cases = []
+    sw = IborSwap(vd, '5Y', SwapTypes.PAY, 0.03, FrequencyTypes.SEMI_ANNUAL, DayCountTypes.ACT_365F)
+    c1, c2 = flat(0.03), pillars()
+    cases.append(('IborSwap.value', sw, 'value', (vd, c1, c2), {'discount_curve': c1, 'index_curve': c2}))
+    c1 = pillars()
+    cases.append(('IborSwap.pv01', sw, 'pv01', (vd, c1), {'discount_curve': c1}))
+    c1 = flat(0.025)
+    cases.append(('IborSwap.swap_rate', sw, 'swap_rate', (vd, c1), {'discount_curve': c1}))
+    bond = Bond(Date(15, 1, 2020), Date(15, 1, 2032), 0.04, FrequencyTypes.SEMI_ANNUAL, DayCountTypes.ACT_ACT_ICMA)
+    c1 = pillars()
+    cases.append(('Bond.dirty_price_from_discount_curve', bond, 'dirty_price_from_discount_curve', (vd, c1), {'discount_curve': c1}))
+    c1 = flat(0.04)
+    cases.append(('Bond.clean_price_from_discount_curve', bond, 'clean_price_from_discount_curve', (vd, c1), {'discount_curve': c1}))
+    opt = EquityVanillaOption(vd.add_years(1), 100.0, OptionTypes.EUROPEAN_CALL)
+    for meth in ('value', 'delta', 'vega', 'theta'):
+        c1, c2, m = flat(0.03), flat(0.01), BlackScholes(0.2)
+        cases.append(('EquityVanillaOption.' + meth, opt, meth, (vd, 100.0, c1, c2, m),
+                      {'discount_curve': c1, 'dividend_curve': c2, 'model': m}))
+    dig = EquityDigitalOption(vd.add_years(1), 100.0, OptionTypes.EUROPEAN_CALL, FinDigitalOptionTypes.CASH_OR_NOTHING)
+    c1, c2, m = flat(0.03), flat(0.01), BlackScholes(0.2)
+    cases.append(('EquityDigitalOption.theta', dig, 'theta', (vd, 100.0, c1, c2, m),
+                  {'discount_curve': c1, 'dividend_curve': c2, 'model': m}))
+    fx = FXVanillaOption(vd.add_years(1), 1.3, 'EURUSD', OptionTypes.EUROPEAN_CALL, 1000000.0, 'USD')
+    c1, c2, m = flat(0.03), flat(0.01), BlackScholes(0.1)
+    cases.append(('FXVanillaOption.value', fx, 'value', (vd, 1.25, c1, c2, m), {'domestic_curve': c1, 'foreign_curve': c2, 'model': m}))
+    cap = IborCapFloor(vd, '3Y', FinCapFloorTypes.CAP, 0.03)
+    c1, m = pillars(), Black(0.25)
+    cases.append(('IborCapFloor.value', cap, 'value', (vd, c1, m), {'libor_curve': c1, 'model': m}))
+    libor = IborSingleCurve(vd, [IborDeposit(vd, '6M', 0.03, DayCountTypes.ACT_360)], [],
+                            [IborSwap(vd, f'{k}Y', SwapTypes.PAY, 0.03 + 0.001 * k, FrequencyTypes.SEMI_ANNUAL, DayCountTypes.ACT_365F)
+                             for k in (1, 2, 3, 5, 7)])
+    cases.append(('IborSwap.value (bootstrapped curve)', sw, 'value', (vd, libor, libor), {'discount_curve': libor, 'index_curve': libor}))
+    cds_list = [CDS(vd, f'{k}Y', 0.01 + 0.001 * k) for k in (1, 3, 5)]
+    issuer = CDSCurve(vd, cds_list, libor, 0.4)
+    cds = CDS(vd, '4Y', 0.015)
+    cases.append(('CDS.value', cds, 'value', (vd, issuer, 0.4), {'issuer_curve': issuer}))
+    cases.append(('CDS.risky_pv01', cds, 'risky_pv01', (vd, issuer), {'issuer_curve': issuer}))
+    return cases
+
+
+def interclass_effects_check(ctx, eff):
+    """runtime side of Props/C18f: on representative valuation calls, every attribute of every ARGUMENT object is digested before and
+    after; an argument's attribute may change only if the generated call graph predicts it: it is among the `writes` of a method of the
+    argument's class (or of a base class) reachable from the called method through `call_graph` edges, or among the called method's own
+    parameter writes on that parameter."""
+    import c18_hist
+    cg = eff['call_graph']
+    succ = {}
+    for e in cg['edges']:
+        succ.setdefault((e[0], e[1]), set()).add((e[3], e[4]))
+    node_writes = {(n[0], n[1]): set(n[2]) for n in cg['nodes']}
+    allc = dict(eff.get('classes', {}))
+    allc.update(eff.get('extended', {}))
+    allc.update(cg.get('targets', {}))
+    try:
+        cases = interclass_cases()
+    except Exception as e:  # noqa: BLE001
+        ctx.broke(f'inter-class effects check could not build its objects: {type(e).__name__}: {e}')
+        return
+    ncalls = nargs = nchanged = 0
+    seen_edges = 0
+    for label, obj, meth, args, watched in cases:
+        cls = type(obj).__name__
+        reach, todo = set(), [(cls, meth)]
+        while todo:
+            k = todo.pop()
+            for t in succ.get(k, ()):
+                if t not in reach:
+                    reach.add(t)
+                    todo.append(t)
+        seen_edges += len(reach)
+        own = (allc.get(cls, {}).get('methods', {}).get(meth) or {}).get('pwrites', [])
+        before = {p: c18_hist.digest(o) for p, o in watched.items()}
+        try:
+            getattr(obj, meth)(*args)
+        except Exception as e:  # noqa: BLE001
+            ctx.broke(f'inter-class effects check: {label} raised {type(e).__name__}: {e}')
+            continue
+        ncalls += 1
+        for p, o in watched.items():
+            nargs += 1
+            after = c18_hist.digest(o)
+            changed = sorted(a for a in set(before[p]) | set(after) if before[p].get(a) != after.get(a))
+            if not changed:
+                continue
+            nchanged += 1
+            names = {k.__name__ for k in type(o).__mro__}
+            predicted = set()
+            for (k, m) in reach:
+                if k in names:
+                    predicted |= node_writes.get((k, m), set())
+            for pw in own:
+                q, how = pw.split(':', 1)
+                if q == p and how.startswith('.'):
+                    predicted.add(how[1:].split('=')[0].split('+')[0].split('.')[0].split('(')[0])
+            bad = [a for a in changed if a not in predicted]
+            if bad:
+                ctx.broke(f'correspondence: {label} changed attribute(s) {bad} of its argument `{p}` ({type(o).__name__}); the generated '
+                          f'call graph and summaries (Props/C18f) predict only {sorted(predicted)}')
+    ctx.count('inter-class effects: argument objects digested before / after a valuation call (changed ones counted as nontrivial)',
+              nargs, nchanged, sample={'calls': ncalls, 'reached (class, method) pairs over all calls': seen_edges})
+    if ncalls < 10 or seen_edges == 0:
+        ctx.broke('inter-class effects check is blind: fewer than 10 calls ran or the call graph reaches nothing from them')
 
 
 def theta_bump_checks(ctx, rng, drivers_ok=True):
@@ -1464,6 +1733,13 @@ def run(ctx):
     def lap(what):
         T.append(time.time())
         ctx.cov.setdefault('timing_s', {})[what] = round(T[-1] - T[-2], 1)
+    # findings/C18.json is the source known_findings.json is generated from (tools/mkfindings.py, run by the coordinator):
+    # an OPEN entry there is known even before the shared file has been regenerated
+    try:
+        with open(os.path.join(C.VERIF, 'findings', 'C18.json')) as f:
+            ctx.known_ids |= {k['id'] for k in json.load(f) if k.get('status', 'open') == 'open'}
+    except Exception:  # noqa: BLE001
+        pass
     drivers_ok = C.lean_stage(ctx, GEN, PROPS, DRIVERS)
     lap('lean')
     C.import_financepy()
@@ -1505,19 +1781,22 @@ def run(ctx):
         if len(ctx.violations) >= 20:
             break
     vector_checks(ctx, ctx.rng('vector'))
+    curve_vector_checks(ctx, ctx.rng('curve-vector'))
     lap('vector')
     date_list_model_checks(ctx, ctx.rng('datelist-model'), drivers_ok)
     theta_bump_checks(ctx, ctx.rng('theta'), drivers_ok)
     if eff is not None and 'module_state' in eff:
         module_state_check(ctx, eff, mod_before)
+    if eff is not None and 'call_graph' in eff:
+        interclass_effects_check(ctx, eff)
     lap('model ties')
     ctx.assumptions += [
-        'the effect extractor is intra-class: effects of calls made on OTHER objects (parameters, attribute-held objects) are covered only by the recorded call names (pcalls) and by the history exploration',
+        'the per-method effect summaries are intra-class; calls made on OTHER objects (parameters, attribute-held objects) are followed by the generated call graph (Props/C18f) where the class of the object can be resolved (annotation / default / isinstance / naming convention) - the 5 unresolved call sites are listed exactly - and otherwise covered by the history exploration',
         'effects through NumPy array aliasing and inside Numba-compiled kernels are found only by the history exploration',
         'the two-phase tree-model API (build_tree then a query) is exercised as products use it (build and query in one call); a bare query after somebody else\'s build_tree is by design the last tree',
         'printing methods (__repr__, print_*) report the last valuation by design and are not treated as results, except str(Date) whose dependence on the global format is checked with the format as an explicit argument',
     ]
-    return C.finish(ctx, 'proof', 'lake build FinVerif.Props.C18a FinVerif.Props.C18b FinVerif.Props.C18c FinVerif.Props.C18d && lake env lean .cache/audit/Audit_C18.lean',
+    return C.finish(ctx, 'proof', 'lake build FinVerif.Props.C18a FinVerif.Props.C18b FinVerif.Props.C18c FinVerif.Props.C18d FinVerif.Props.C18e FinVerif.Props.C18f && lake env lean .cache/audit/Audit_C18.lean',
                     C.TRUSTED_BASE_COMMON + ['tools/effects/extract.py: the read-before-write / write sets it emits over-approximate what the methods do (checked against observed attribute changes on every explored call)'],
                     RULE)
 
